@@ -37,6 +37,16 @@ Violations(line) ==
      \* the authenticity result alone (C03, C04): whenever both the run and the spec report one, they agree
   \cup R("authenticity", ResOf(e.results, "authenticity") # {} /\ ResOf(o.results, "authenticity") # {}
                           /\ ResOf(o.results, "authenticity") # ResOf(e.results, "authenticity"))
+     \* C05: the validator is consulted with the complete chain, with a signing time only for signing-authority
+     \* signatures, through the interface the caller supplied
+  \cup R("revshape", Has(in, "revvec") /\ o.revCalled /\
+                        (o.revChainLen # Len(in.revvec.vec) \/ o.revZeroTime # (in.revvec.scheme = "x509") \/ o.revIface # in.revvec.iface))
+     \* C05: class of the reported revocation result and the certificate it names
+  \cup R("revclass", Has(in, "revvec") /\ o.revClass # "none" /\
+                        LET rv == in.revvec IN
+                        \/ o.revClass # RevClass(rv)
+                        \/ (RevClass(rv) = "revoked" /\ o.revNamed \notin D_RevokedIdx(rv))
+                        \/ (RevClass(rv) = "unknown" /\ o.revNamed \notin {i \in 1..Len(rv.vec) : ~Good(rv.vec[i])}))
      \* skipped revocation is not performed; a declared capability replaces the native check
   \cup R("calls", \/ (o.revCalled /\ ~(RevAct(in) # "skip" /\ "REV" \notin Caps(in)))
                   \/ (\E i \in 1..Len(o.plugCaps) : o.plugCaps[i] \notin Asked(in))
